@@ -230,7 +230,7 @@ def run(env):
             break
     # exponent transport on ristretto
     rx = []
-    for x in (0, 1, L - 1, 2 ** 128 - 1, 2 ** 128, r.randrange(L), r.randrange(L)):
+    for x in (0, 1, L - 1, L - 2, 2 ** 252, 2 ** 252 + 1, 2 ** 252 - 1, 2 ** 248, 2 ** 128 - 1, 2 ** 128, r.randrange(L), r.randrange(L)):
         rx.append({"ctx": "R", "op": "pk_of_sk", "args": ["12345"], "_x": x, "tag": "ristretto"})
     pko = env.harness(rx[:1])[0]
     rx = [{"ctx": "R", "op": "encrypt_exp", "args": [str(c["_x"]), pko, script(r, 512)], "_x": c["_x"], "tag": "ristretto"} for c in rx]
